@@ -315,6 +315,10 @@ def violation(pid, replay_path, not_found=False):
 
 
 def write_evidence(pid, tier, seed, coverage, assumptions, wall_s, violations, level="proof"):
+    global EVIDENCE
+    if os.path.abspath(REPO) != "/repo":
+        # a run against a scratch tree (seeded change under test) must not replace the evidence of /repo
+        EVIDENCE = os.path.join(WORKROOT, "evidence_scratch")
     os.makedirs(EVIDENCE, exist_ok=True)
     ev = dict(property_id=pid, tier=tier, seed=int(seed), level=level, coverage=coverage,
               assumptions=assumptions, wall_s=round(wall_s, 2), violations=int(violations))
